@@ -394,7 +394,8 @@ Proof.
   - apply do_modify_not_stuck; auto. + intros; congruence. + intros t t' H. injection H as <-. apply nodup_t_remove.
   - unfold do_use. destruct (g_get g n) eqn:E; [|cbn; congruence]. destruct (n_compiled n0); [cbn; congruence|].
     destruct (compile_some g n) as [g' C].
-    + apply inv_mterm; auto. eapply g_get_lt; eauto.
+    + intros k Lk. apply inv_mterm; auto.
+    + eapply g_get_lt; eauto.
     + rewrite C. cbn. congruence.
 Qed.
 
